@@ -391,7 +391,7 @@ structure ValidC12 (mc : MCfg) (c : Ctl) (apps : List App) : Prop where
   hb4 : 4 ∣ c.buf
   hbmax : c.buf ≤ 1024
   happ : c.appId < 256
-  hv : mc.vcpuBase < 4294967296
+  hv : ∀ x y, mc.vcpuBase x y < 4294967296
   himg : ∀ a ∈ apps, 4 ∣ a.image.length ∧ a.image.length ≤ 255 * c.buf
   hchips : mc.chips.Nodup
   h256 : ∀ ch ∈ mc.chips, ch.1 < 256 ∧ ch.2 < 256
@@ -473,7 +473,7 @@ theorem resend_exact_c12 (mc : MCfg) (c : Ctl) (apps : List App) (hv : ValidC12 
 
 /-- one chip (0, 0); `allMiss` decides whether the chip misses every fill -/
 def mcE (allMiss : Bool) : MCfg :=
-  { chips := [(0, 0)], missed := fun _ _ _ => allMiss, sdramSys := 1610612736, vcpuBase := 3842011136 }
+  { chips := [(0, 0)], missed := fun _ _ _ => allMiss, sdramSys := 1610612736, vcpuBase := fun _ _ => 3842011136 }
 /-- region word 0x00030001 = level 3, base (0, 0), block 0: chip (0, 0) only; mask 2 = core 1 -/
 def ctlE (useCount wait : Bool) : Ctl :=
   { buf := 4, compress := fun t => if wantsT t 0 0 1 then [(196609, 2)] else [], appId := 30, nTries := 2,
@@ -491,7 +491,7 @@ theorem validE (allMiss useCount wait : Bool) : Valid (mcE allMiss) (ctlE useCou
   hb4 := by show 4 ∣ 4; decide
   hbmax := by show 4 ≤ 1024; decide
   happ := by show 30 < 256; decide
-  hv := by show 3842011136 < 4294967296; decide
+  hv := by intro _ _; show 3842011136 < 4294967296; decide
   himg := by
     intro a ha
     simp only [appsE, List.mem_singleton] at ha
